@@ -90,6 +90,18 @@ class ExprMixin:
     def text_len(self, z):
         return z3.Function('tlen', TextS, I)(z)
 
+    def text_slice(self, v, lo, hi, st, node):
+        """t[lo:hi] of an abstract buffer: a fresh text that is the slice of t at the clamped start (ISSLICE of the registry's text model)"""
+        f = self.reg.specfuns.get('ISSLICE')
+        if f is None:
+            _unsup('slice of a text buffer without the text model (ISSLICE)', node)
+        n = self.text_len(v.z)
+        a = self.clamp(lo.z, n) if lo is not None else z3.IntVal(0)
+        b = self.clamp(hi.z, n) if hi is not None else n
+        res = SV(v.ty, fresh('tslice', TextS))
+        st.assume(self.text_len(res.z) == z3.If(b > a, b - a, 0), self.text_len(res.z) >= 0, f.z3fun(res.z, v.z, a))
+        return res
+
     def coerce(self, v, ty, st):
         """view value v at declared type ty (None/opt injections, bool->int); no runtime effect"""
         if isinstance(v, SeqV) or v.ty == ty:
